@@ -18,7 +18,7 @@ int main(void) {
   _ZN5gdstk7Polygon5scaleENS_4Vec2ES1_(&poly, NUM_OF_INT(bx), NUM_OF_INT(by), NUM_OF_INT(ax), NUM_OF_INT(ay));
   for (int i = 0; i < NV; i++) { ex[i] = (vx[i] - ax) * bx + ax; ey[i] = (vy[i] - ay) * by + ay; }
 #elif OP == 2     /* rotate(angle, center) */
-  { NUM rot = pick_rotation(0);
+  { NUM rot = pick_rotation(ROT0 == 2 ? 2 : 0);
     _ZN5gdstk7Polygon6rotateEdNS_4Vec2E(&poly, rot, NUM_OF_INT(ax), NUM_OF_INT(ay));
     for (int i = 0; i < NV; i++) { OI qx = vx[i] - ax, qy = vy[i] - ay; ex[i] = qx * C_ - qy * S_ + ax; ey[i] = qx * S_ + qy * C_ + ay; } }
 #elif OP == 3     /* transform(m, refl, rot, origin): magnify, reflect across x, rotate, translate */
